@@ -155,6 +155,10 @@ class GZip {
       stream_.zfree = Z_NULL;
       stream_.opaque = Z_NULL;
       stream_.msg = NULL;
+      // A writer that is flushed before anything was written calls deflate
+      // without ever calling SetInput: the input cursor must be defined.
+      stream_.next_in = Z_NULL;
+      stream_.avail_in = 0;
     }
 
     void SetOutput(void *to, std::size_t amount) {
